@@ -1,4 +1,5 @@
 import HeraModel.Model.Loc
+import HeraModel.Generated.LexerFacts
 /-
   C17 — every diagnostic points at the real place in the user's file: the location arithmetic.
 
@@ -156,6 +157,14 @@ theorem C17_caret (line : Str) (col : Nat) :
   by_cases h9 : line[i] = 9
   · simp [h9]
   · simp [h9]
+
+/-- **C17 (only `next_char` moves the lexer).** In the current source of hera/lexer.py (regenerated table), the position,
+    the line and the column of the lexer are assigned nowhere but in `__init__` (to 0, 1, 1) and in `next_char` - so after
+    consuming any prefix `pre` the lexer's (line, column) is `posAfter pre`, which is what the theorems above describe. -/
+theorem C17_position_only_next_char :
+    (∀ m ∈ LexerFacts.positionWriters, m ∈ ["__init__", "next_char"]) ∧
+    (∀ m ∈ LexerFacts.lineWriters, m ∈ ["__init__", "next_char"]) ∧
+    (∀ m ∈ LexerFacts.columnWriters, m ∈ ["__init__", "next_char"]) := by decide
 
 /-! ### conditional compilation keeps line breaks -/
 
